@@ -464,6 +464,63 @@ func run(e *core.Env) {
 			cu.c.mo.accept(fr.seq)
 		}
 	}
+
+	// ---- a session that lives through key roll-overs (a fifth of the runs) ----
+	// Sequential and in order on the end-to-end session: traffic crosses the 32-bit wrap, goes
+	// on in the new epoch up to the numbers at which the receiver looks out for the next key
+	// again (the counter is moved forward by the harness), and then every frame of the current
+	// epoch is delivered a second time: none may unseal again, and fresh frames must go on.
+	if tp.Chance(1, 5) {
+		sh := &state.EncryptionSessionTestHelper{EncryptionSession: sSess.Encryption()}
+		sealOne := func(what string) sealed {
+			f, err := sB.NewFrameV1(sID.IP, rID.IP, frame.NetworkTraffic, nil, tp.Bytes(1+tp.Intn(40)), nil)
+			if err != nil {
+				e.Infra("new frame: %v", err)
+			}
+			if err := f.Seal(sSess); err != nil {
+				e.Infra("seal (%s): %v", what, err)
+			}
+			s := sealed{seq: uint64(f.SequenceNum()), data: copyFrame(f)}
+			f.ReturnToPool()
+			return s
+		}
+		for round, rounds := 1, 1+tp.Intn(2); round <= rounds; round++ {
+			sh.ReglSetOut(0xFFFF_FFFF - uint32(1+tp.Intn(4)))
+			var epochFrames []sealed
+			crossed := false
+			for i := 0; i < 9; i++ {
+				fr := sealOne("across the wrap")
+				if fr.seq <= 8 && !crossed {
+					crossed = true
+					epochFrames = nil // frames of the new epoch only
+				}
+				if err := deliverE2E(fr.data); err != nil {
+					e.Fail("regular/fresh-refused/across-the-wrap", "roll-over %d: in-order frame number %d refused: %v", round, fr.seq, err)
+				}
+				epochFrames = append(epochFrames, fr)
+			}
+			sh.ReglSetOut(0xFFFF_FF00 + uint32(tp.Intn(100)))
+			for i := 0; i < 3; i++ {
+				fr := sealOne("high in the new epoch")
+				if err := deliverE2E(fr.data); err != nil {
+					e.Fail("regular/fresh-refused/across-the-wrap", "roll-over %d: frame number %d of the new epoch refused: %v", round, fr.seq, err)
+				}
+				epochFrames = append(epochFrames, fr)
+			}
+			for _, k := range tp.Perm(len(epochFrames)) {
+				if err := deliverE2E(epochFrames[k].data); err == nil {
+					e.Fail("regular/dup-accepted/after-roll-over", "roll-over %d: frame number %d of the current epoch unsealed a second time", round, epochFrames[k].seq)
+				}
+			}
+			for i := 0; i < 3; i++ {
+				fr := sealOne("after the duplicates")
+				if err := deliverE2E(fr.data); err != nil {
+					e.Fail("regular/fresh-refused/across-the-wrap", "roll-over %d: fresh frame number %d refused after duplicates were delivered: %v", round, fr.seq, err)
+				}
+			}
+		}
+		e.Probe("session_through_key_roll_overs")
+	}
 }
 
 func b2u(b bool) uint64 {
